@@ -4,5 +4,11 @@ CONSTANTS
   MaxReads = 3
   Iters = {"i1"}
   Depth = 6
+  Ops = {"add", "nil", "len", "resolve", "open", "read"}
+  Kinds = {}
+  Sizes = {}
+  HoldKinds = {}
+  MaxHolds = 0
+  MaxHeld = 3
 CONSTRAINT EmitAll
 CHECK_DEADLOCK FALSE
